@@ -106,9 +106,14 @@ def run(ctx):
         scripts += splitfam.emit_scripts(ctx, part, depth, 'C17_emit_%d' % i, simulate=n // 3,
                                          maxlen=40 if quick else 60, minlen=8, seed=ctx.seed * 7 + i + 1)
     cover = splitfam.cover_scripts(ctx, ALL, depth - 1 if quick else depth - 1, 'C17_cover', transitions=not quick)
+    TXBEGIN = [{'k': 'begin', 'lab': 'begin', 'fin': False}, {'k': 'semi', 'lab': 'semi', 'fin': True},
+               {'k': 'other', 'lab': 'name', 'fin': False}, {'k': 'semi', 'lab': 'semi', 'fin': True}]
     for i, c in enumerate(cover):
         for j in (range(len(splitfam.PROBES)) if not quick else [i]):
             scripts.append({'hist': splitfam.with_probe(c['hist'], j)})
+        if i % 2 == 0:
+            # the statements BEFORE the procedure are part of the script: an open transaction BEGIN; must not leak into it
+            scripts.append({'hist': TXBEGIN + splitfam.with_probe(c['hist'], i)})
     ctx.cov['cover_scripts'] = len(cover)
     for lab, cex in model_cexs:
         if cex:
